@@ -34,9 +34,9 @@ def run(res, proofs_ok, proofs_why):
             diffs.append({"case": F.describe(r), "what": "open outcome: impl %s model %s" % (o, mo)})
         # daemon start-up + first publication over this file
         w, wm = r["wrt"], r["wrt_model"]
-        if r["kind"] == 2:
+        if r["kind"] == 2 or r["kind"] >= 4:
             if not w.startswith("W:err"):
-                why.append("daemon start-up over a directory did not fail cleanly: " + w)
+                why.append("daemon start-up over a directory / an unresolvable path did not fail cleanly: " + w)
             if wm != "W:err":
                 diffs.append({"case": F.describe(r), "what": "writer outcome on a directory: model " + wm})
         else:
